@@ -7,6 +7,14 @@ ENGINES = [
 ]
 
 PHASES = {
+    "C01": [
+        {"pkg": "e1", "test": "TestC01Matcher", "phase": "C01/matcher-pairs"},
+        {"pkg": "e1", "test": "TestC01Independence", "phase": "C01/filter-independence"},
+        {"pkg": "e1", "test": "TestC01Histories", "phase": "C01/subscription-histories"},
+    ],
+    "C07": [
+        {"pkg": "e1", "test": "TestC07Retained", "phase": "C07/retained-histories"},
+    ],
     "C08": [
         {"pkg": "e1", "test": "TestC08Convergence", "phase": "C08/convergence"},
     ],
@@ -32,6 +40,18 @@ PHASES = {
 }
 
 META = {
+    "C01": {
+        "engine": "E1-seqx + E2-brokermc",
+        "technique": "exhaustive (filter, topic) enumeration and bounded subscription histories on the real trie / replicated state vs an MQTT 4.7 reference; explicit event exploration of the in-process broker for bytes on the wire",
+        "text": "All 318k (filter, topic) pairs of up to 4 levels over {a,b,c,+,#,empty} on the real trie; every ordered pair (thorough: triple) of 53 filters with remove/re-insert for independence; every Create/Delete/DeleteSession history of depth 4 (quick) / 5 (thorough) over 2 sessions x 4 filters with ByPattern compared on 14 topics after each step and a differential equal-active-set oracle; plus PUBLISH packets observed at client pipe ends of the in-process broker.",
+        "note": "$-topics and invalid filters are outside the alphabet; the known empty-level finding is matched by recomputing the truncation the defect performs.",
+    },
+    "C07": {
+        "engine": "E1-seqx + E2-brokermc",
+        "technique": "exhaustive bounded Set/Delete histories on the real retained-message state (origin + replica) vs a map reference; explicit event exploration on the in-process broker for the wire half",
+        "text": "Every retained Set/Delete sequence of length 1..4 (quick) / 1..5 (thorough) over 5 prefix-sharing topics and 2 payloads on node A with node B fed by A's broadcasts; after each sequence Get(f) for 176 filters (<=3 levels over {a,b,c,+}, trailing #, plus root-level wildcards) on both nodes equals the last non-empty payload per matching topic.",
+        "note": "Wire-level replay (retain flag, exactly once per topic, right after SUBACK) is checked by the E2 phase.",
+    },
     "C08": {
         "engine": "E1-seqx",
         "technique": "exhaustive enumeration of update sets x delivery permutations x batchings x duplications on the real merge code vs a newest-entry-wins reference",
